@@ -8,6 +8,7 @@ TAGS = evalorder.VALUE_TAGS
 import re as _re
 
 _ITER_SPELLING = _re.compile(r"into_iter\((?:\[\w+\]|BTreeMap|Vec|HashMap)::iter\(")
+_BARE_ITER = _re.compile(r"(?<!into_iter\()(?:\[\w+\]|BTreeMap|Vec|HashMap)::iter\(")
 _FRESH = _re.compile(r"^(Vec::new\(\)|BTreeMap::new\(\)|Vec::with_capacity\(.*\))$")
 
 
@@ -15,6 +16,7 @@ def _plain_iter(x):
     """`for x in c.iter()` and `for x in &c` are the same forward iteration"""
     if not isinstance(x, str):
         return x
+    x = _BARE_ITER.sub("into_iter(", x)
     while True:
         m = _ITER_SPELLING.search(x)
         if not m:
